@@ -1714,7 +1714,9 @@ def list_method(eng, ctx, st, obj, name, args, kwargs):
             narr = fresh('ins', z3.ArraySort(z3.IntSort(), sort_of(e)))
             j = fresh('j', z3.IntSort())
             st.assume(z3.Select(narr, 0) == v.z)
-            st.assume(z3.ForAll([j], z3.Implies(z3.And(0 <= j, j < n), z3.Select(narr, j + 1) == z3.Select(arr, j))))
+            # both directions carry a trigger: a mention of the new element j finds the old one j - 1 and vice versa
+            st.assume(z3.ForAll([j], z3.Implies(z3.And(0 <= j, j < n), z3.Select(narr, j + 1) == z3.Select(arr, j)), patterns=[z3.Select(arr, j)]))
+            st.assume(z3.ForAll([j], z3.Implies(z3.And(1 <= j, j <= n), z3.Select(narr, j) == z3.Select(arr, j - 1)), patterns=[z3.Select(narr, j)]))
             eng.list_set_raw(st, obj, n + 1, narr)
             yield st, eng.lit(None)
             return
